@@ -273,9 +273,22 @@ func (f *Fault) Read(p []byte) (int, error) {
 	f.mu.Unlock()
 	n, err := f.Conn.Read(p[:limit])
 	f.mu.Lock()
+	defer f.mu.Unlock()
+	// the fault may have been armed while this Read was parked in the inner conn:
+	// apply the limit to what came back (bytes beyond the fault point are lost, as
+	// they would be on a broken connection)
+	if f.ReadFailAt >= 0 {
+		rem := f.ReadFailAt - f.inBytes
+		if rem <= 0 {
+			f.rfailed = true
+			return 0, f.ReadErr
+		}
+		if n > rem {
+			n = rem
+		}
+	}
 	f.inBytes += n
 	f.InTotal = f.inBytes
-	f.mu.Unlock()
 	return n, err
 }
 
